@@ -30,6 +30,7 @@ pub struct SourceState {
     pub events: Vec<Value>,
     pub log_bytes_upto: usize,
     pub wchunk: usize,        // bytes accepted per poll_write (0 = all): a sink that takes writes in parts
+    pub resume_at: Option<tokio::time::Instant>,
 }
 
 #[derive(Clone, Default)]
@@ -52,14 +53,21 @@ impl AsyncRead for ScriptSource {
             return Poll::Pending;
         }
         if k >= PAUSE {
-            // nothing arrives for (k - PAUSE) milliseconds of virtual time
+            // nothing arrives for (k - PAUSE) milliseconds of virtual time, however often the reader asks meanwhile
+            let now = tokio::time::Instant::now();
+            let t = *s.resume_at.get_or_insert(now + std::time::Duration::from_millis((k - PAUSE) as u64));
             s.events.push(json!({"e": "pending", "want": want}));
-            let w = cx.waker().clone();
-            let ms = (k - PAUSE) as u64;
-            tokio::spawn(async move {
-                tokio::time::sleep(std::time::Duration::from_millis(ms)).await;
-                w.wake();
-            });
+            if now < t {
+                s.plan_pos -= 1; // the pause is still the current plan entry
+                let w = cx.waker().clone();
+                tokio::spawn(async move {
+                    tokio::time::sleep_until(t).await;
+                    w.wake();
+                });
+                return Poll::Pending;
+            }
+            s.resume_at = None;
+            cx.waker().wake_by_ref();
             return Poll::Pending;
         }
         let avail = s.data.len() - s.pos;
